@@ -443,6 +443,9 @@ func RunQueryForNewPipeline(conn *websocket.Conn, qid uint64, root *structs.ASTN
 	rQuery, err := query.StartQueryAsCoordinator(qid, isAsync, nil, root, aggs, qc, nil, false)
 	if err != nil {
 		log.Errorf("qid=%v, RunQueryForNewPipeline: failed to start query, err: %v", qid, err)
+		if runTimechartQuery {
+			query.DeleteQuery(timechartQid)
+		}
 		return nil, false, nil, err
 	}
 
@@ -455,6 +458,9 @@ func RunQueryForNewPipeline(conn *websocket.Conn, qid uint64, root *structs.ASTN
 		if !ok {
 			log.Errorf("qid=%v, RunQueryForNewPipeline: Got non ok, state: %+v", qid, queryStateData)
 			query.DeleteQuery(qid)
+			if runTimechartQuery {
+				query.DeleteQuery(timechartQid)
+			}
 			return httpRespOuter, false, root.TimeRange, fmt.Errorf("qid=%v, RunQueryForNewPipeline: Got non ok, state: %+v", qid, queryStateData)
 		}
 
